@@ -133,6 +133,12 @@ pub fn fuzz_frontend(cases_path: &str, trace_path: &str, summary_path: &str, nby
     let cases = read_ndjson(std::path::Path::new(cases_path));
     let mut inputs: Vec<(String, String, bool)> = Vec::new(); // (family, text, mustreject)
     for c in &cases {
+        if let Some(text) = c["text"].as_str() {
+            // family 1b: syntactically valid terms enumerated by spec/ZyFormat.tla, as written and with their names bound
+            inputs.push(("trees".into(), text.to_string(), false));
+            inputs.push(("trees-closed".into(), format!("fn a f g x y => ({text})"), false));
+            continue;
+        }
         let vocab = if c["vocab"] == "sub" { SUBVOCAB } else { VOCAB };
         let text: String = c["input"].as_array().unwrap().iter().map(|i| vocab[i.as_u64().unwrap() as usize - 1]).collect::<Vec<_>>().join(" ");
         inputs.push(("lexemes".into(), text, c["mustreject"].as_bool().unwrap()));
